@@ -22,6 +22,10 @@ STATS = {}
 PARTIAL = [
     "matrixDeterminant_eq_det_partial: `matrix_determinant = Matrix.det` is proved under the hypothesis that Doolittle on the row-permuted "
     "matrix meets no zero pivot; without it the code still returns a number (0), wrong for non-singular inputs (open finding F-16b, refuted in Lean on the witness)",
+    "shape guards: every theorem about a list-level routine (lu_solve, lu_factor, matrix_pivot, matrix_inverse, matrix_determinant, matrix_multiply, the history theorems) "
+    "carries the decidable guard under which the implementation does not raise ValueError/IndexError for the shape of its input (isSquare, luSolveOk, luFactorOk, "
+    "matrixInverseOk, matrixMultiplyOk, matrixVectorOk, admissible); the guards are not tested inside the model functions (which pad with 0), they are hypotheses, and "
+    "driver_guard proves they are the test after which the driver answers ERR; nothing is claimed for rejected inputs",
     "collocation matrices have non-zero Doolittle pivots (total positivity): not proved; `luSolve_returns` takes the non-zero pivots as hypothesis, "
     "the oracle checks that lu_solve returns on generated interpolation matrices",
     "matrixPivot max-pivot property (|mp[j][j]| >= |mp[i][j]|, i > j) is checked by the oracle only (it is not part of the property text)",
@@ -31,7 +35,7 @@ PARTIAL = [
     "the refutation of the pinned behaviour F-16a is about a model of the pinned code (`stepPinned`) that is compared with the implementation only through the replayed witnesses, not by the correspondence stream",
 ]
 ASSUMPTIONS = [
-    "matrices passed to pivot / inverse / determinant / lu_factor are square lists of lists (the code exchanges only the first n entries of a row)",
+    "matrices passed to pivot / inverse / determinant / lu_factor are square lists of lists (the code exchanges only the first n entries of a row) - now an explicit hypothesis (isSquare / ...Ok) of every theorem, not only an assumption of the harness",
     "the right-hand side of lu_solve has exactly len(A) rows in the theorems (the model also follows the code for fewer rows)",
 ]
 TRUSTED = ["harness/props/c16.py exact Bareiss determinant and matrix product (independent of geomdl and of the Lean model)"]
